@@ -32,7 +32,7 @@ type querySpec struct {
 	Props   []string
 }
 
-var rw = []string{"C01", "C08", "C10", "C18"}
+var rw = []string{"C01", "C06", "C08", "C10", "C18"}
 
 var queryTable = []querySpec{
 	{"ping", []string{`^select 1 as ok$`}, nil, []string{"C04", "C05", "C08"}},
@@ -234,6 +234,37 @@ func checkConfigPlumbing(c *Check) {
 		}
 	}
 	c.Req(nd == 1, p.Name(D), "-", "default:not-critical:site", "one dynamic default", fmt.Sprintf("%d", nd))
+	// nobody else rewrites a configured value: every store to a field of config.Config is in the listed functions
+	allowed := map[string][]string{
+		"config.DefaultConfig":                   nil, // the static defaults (a composite literal)
+		"(*config.Config).SetDynamicDefaults":    {"NotCriticalDiskUsage"},
+	}
+	ns := 0
+	for _, fn := range p.ModFuncs {
+		if pos := fn.Pos(); pos.IsValid() && strings.HasSuffix(p.Fset.Position(pos).Filename, "_test.go") {
+			continue
+		}
+		for _, b := range fn.Blocks {
+			for _, in := range b.Instrs {
+				st, ok := in.(*ssa.Store)
+				if !ok {
+					continue
+				}
+				f, ok := st.Addr.(*ssa.FieldAddr)
+				if !ok {
+					continue
+				}
+				full := fieldName(f.X.Type(), f.Field)
+				if !strings.HasPrefix(full, "config.Config.") {
+					continue
+				}
+				ns++
+				fields, okf := allowed[p.Name(top(fn))]
+				okk := okf && (fields == nil || contains(fields, afterDot(full)))
+				c.Req(okk, p.Name(fn), p.InstrPos(in), nthKey("config:write:"+afterDot(full), ns), "a configured value reaches its consumers as configured: configuration fields are written only by the static defaults and the one listed dynamic default (a 'normalisation' that rewrites a legal value changes what the operator asked for)", "written in "+p.Name(fn))
+			}
+		}
+	}
 }
 
 func init() {
@@ -250,6 +281,6 @@ func init() {
 	sort.Strings(ps)
 	sharedRules = append(sharedRules,
 		sharedRule{Suffix: "QUERIES", Props: ps, Body: checkQueries, Doc: "(QUERIES) the SQL text of every statement this property's rules name does what the name says (regular expressions over the normalised text, equivalent spellings accepted), and every column of a struct a row is scanned into is an alias of its SELECT"},
-		sharedRule{Suffix: "CONFIG", Props: []string{"C01", "C12", "C18"}, Body: checkConfigPlumbing, Doc: "(CONFIG) validation rejects both-modes, async-without-repl_mon and not_critical > critical; a configuration reaches the daemon only validated and with the dynamic defaults applied; an unset not_critical defaults to critical"},
+		sharedRule{Suffix: "CONFIG", Props: []string{"C01", "C12", "C17", "C18"}, Body: checkConfigPlumbing, Doc: "(CONFIG) validation rejects both-modes, async-without-repl_mon and not_critical > critical; a configuration reaches the daemon only validated and with the dynamic defaults applied; an unset not_critical defaults to critical"},
 	)
 }
